@@ -1887,3 +1887,18 @@ V('C10', 'counter-reset-in-helper-called-in-burst', SIM, '''            while no
                 eval_cnt = 0
                 eval_set |= sblk.oconnections
 ''', 'R10.2')
+
+# ---- round-2 seeds C11-C20: new obligations and their variants
+V('C15', 'first-pass-skips-inverters', SIM, '''            for blk in list(self.getblocks(btype)):
+                all_inputs: list[block.Block|block.Const] = []''', '''            for blk in list(self.getblocks(btype)):
+                if btype is block.CBlock and isinstance(blk, cblocks.Not):
+                    continue
+                all_inputs: list[block.Block|block.Const] = []''', 'R15.2')
+V('C12', 'drain-bounded-by-size-snapshot', S2, "            while not queue.empty():\n                new_data = queue.get_nowait()", "            for _ in range(queue.qsize()):\n                new_data = queue.get_nowait()", 'R12.5')
+E('C12', 'drain-test-qsize', S2, "            while not queue.empty():\n                new_data = queue.get_nowait()", "            while queue.qsize() > 0:\n                new_data = queue.get_nowait()")
+VM('C12', 'stop-data-truthiness', [(S2, "        if self._stop_data is not None and self._ctrl_coro != self._ctrl_start:", "        if self._stop_data and self._ctrl_coro != self._ctrl_start:"),
+                                  (S2, "        if self._stop_data is not None and self._ctrl_coro == self._ctrl_start:", "        if self._stop_data and self._ctrl_coro == self._ctrl_start:")], 'R12.6')
+VM('C08', 'stop-data-truthiness', [(S2, "        if self._stop_data is not None and self._ctrl_coro != self._ctrl_start:", "        if self._stop_data and self._ctrl_coro != self._ctrl_start:"),
+                                  (S2, "        if self._stop_data is not None and self._ctrl_coro == self._ctrl_start:", "        if self._stop_data and self._ctrl_coro == self._ctrl_start:")], 'R08.8')
+V('C08', 'outputfunc-stop-data-truthiness', S2, "        if self._stop_data is not None:\n            self._event_put(**self._stop_data)\n        super().stop()", "        if self._stop_data:\n            self._event_put(**self._stop_data)\n        super().stop()", 'R08.8')
+V('C14', 'shutdown-cancels-without-recording', SIM, "        self.abort(asyncio.CancelledError('shutdown'))\n        try:\n            await self._simtask", "        self._simtask.cancel('shutdown')\n        try:\n            await self._simtask", 'R14.1')
